@@ -58,20 +58,30 @@ def run_plain(script, timeout=120, env=None):
 
 
 class PlainWorker:
-    """A persistent plain-python process (uninstrumented athlib) used to replay
-    witnesses and counterexamples cheaply: send a python expression/snippet,
-    get back a JSON-able result."""
-    DRIVER = r'''
-import sys, json, traceback
+    """Plain-python processes (uninstrumented athlib) used to replay witnesses and counterexamples cheaply.
+
+    * expressions (`eval`: witness values) run in ONE long-lived process, so its athlib has seen every earlier witness call -
+      a natural call history; a disagreement with the symbolic result that a fresh process does not show is a history effect
+      (harness/hc.py Runner._history_violation);
+    * scripts (`run_script`: counterexample replays, clause scripts, history replays) run in a child forked per request from a
+      second process that has imported athlib and never calls it itself: every script starts from the state of a fresh import."""
+    DRIVER = r"""
+import sys, json, os, traceback
 sys.path.insert(0, REPO_PATH)
 import athlib
+FORK = FORK_FLAG
 G = {'athlib': athlib}
 exec("from decimal import Decimal\nimport datetime, re, math", G)
-for line in sys.stdin:
-    req = json.loads(line)
-    out = {}
+
+def handle(req):
+    import io, contextlib
+    if req.get('prelude'):
+        try:
+            with contextlib.redirect_stdout(io.StringIO()):
+                exec(req['prelude'], {'__name__': '__replay__'})
+        except BaseException:
+            pass
     if req.get('script') is not None:
-        import io, contextlib
         buf = io.StringIO()
         code = 0
         try:
@@ -82,9 +92,8 @@ for line in sys.stdin:
         except BaseException as e:
             code = 3
             buf.write('EXC ' + type(e).__name__ + ': ' + str(e))
-        sys.stdout.write(json.dumps({'code': code, 'out': buf.getvalue()[-2000:]}) + "\n")
-        sys.stdout.flush()
-        continue
+        return {'code': code, 'out': buf.getvalue()[-2000:]}
+    out = {}
     try:
         if req.get('setup'):
             exec(req['setup'], G)
@@ -102,19 +111,62 @@ for line in sys.stdin:
         out['exc'] = type(e).__name__
         out['msg'] = str(e)[:300]
         out['mro'] = [k.__name__ for k in type(e).__mro__]
-    sys.stdout.write(json.dumps(out) + "\n")
+    return out
+
+for line in sys.stdin:
+    req = json.loads(line)
+    if FORK:
+        r, w = os.pipe()
+        pid = os.fork()
+        if pid == 0:
+            os.close(r)
+            try:
+                data = json.dumps(handle(req))
+            except BaseException as e:
+                data = json.dumps({'code': 3, 'out': 'EXC ' + type(e).__name__, 'ok': False, 'exc': type(e).__name__, 'msg': str(e)[:300]})
+            os.write(w, data.encode())
+            os._exit(0)
+        os.close(w)
+        chunks = []
+        while True:
+            b = os.read(r, 65536)
+            if not b:
+                break
+            chunks.append(b)
+        os.close(r)
+        os.waitpid(pid, 0)
+        data = b''.join(chunks).decode() or json.dumps({'code': 3, 'out': 'child died', 'ok': False, 'exc': 'ChildDied', 'msg': ''})
+        sys.stdout.write("@@" + data + "\n")
+    else:
+        sys.stdout.write("@@" + json.dumps(handle(req)) + "\n")
     sys.stdout.flush()
-'''
+"""
 
     def __init__(self):
+        self.p = None
+        self.fs = None
+        self.calls = 0
+        self.log = []        # every expression evaluated in the long-lived process, in order (the call history of its athlib import)
+
+    @staticmethod
+    def _spawn(fork):
         e = dict(os.environ)
         e.pop('PYTHONPATH', None)
         e['PYTHONHASHSEED'] = '0'
-        self.p = subprocess.Popen([PLAIN_PY, '-c', self.DRIVER.replace('REPO_PATH', repr(REPO))], cwd=REPO,
-                                  stdin=subprocess.PIPE, stdout=subprocess.PIPE,
-                                  stderr=subprocess.DEVNULL, text=True, env=e)
-        self.calls = 0
-        self.log = []        # every request sent to this process, in order (the call history of its athlib import)
+        src = PlainWorker.DRIVER.replace('REPO_PATH', repr(REPO)).replace('FORK_FLAG', 'True' if fork else 'False')
+        return subprocess.Popen([PLAIN_PY, '-c', src], cwd=REPO, stdin=subprocess.PIPE, stdout=subprocess.PIPE,
+                                stderr=subprocess.DEVNULL, text=True, env=e)
+
+    def _ask(self, proc, req, what):
+        proc.stdin.write(json.dumps(req) + "\n")
+        proc.stdin.flush()
+        while True:
+            line = proc.stdout.readline()
+            if not line:
+                raise Inconclusive('plain worker died on %s' % what)
+            if line.startswith('@@'):
+                return json.loads(line[2:])
+            # anything else is a stray print() of the library
 
     def _note(self, entry):
         self.log.append(entry)
@@ -123,41 +175,35 @@ for line in sys.stdin:
 
     def eval(self, expr, setup=None):
         self.calls += 1
+        if self.p is None:
+            self.p = self._spawn(False)
         self._note(('eval', expr, setup))
-        self.p.stdin.write(json.dumps({'expr': expr, 'setup': setup, 'script': None}) + "\n")
-        self.p.stdin.flush()
-        while True:
-            line = self.p.stdout.readline()
-            if not line:
-                raise Inconclusive('plain worker died on %r' % expr)
-            line = line.strip()
-            if line.startswith('{'):
-                try:
-                    return json.loads(line)
-                except ValueError:
-                    continue  # stray print() from the library
+        return self._ask(self.p, {'expr': expr, 'setup': setup, 'script': None}, repr(expr))
 
-    def run_script(self, script):
-        """exec a replay script in the plain process; returns (exit code, stdout)"""
+    def run_script(self, script, prelude=None):
+        """exec a replay script in a child forked from the pristine process; returns (exit code, stdout)"""
         self.calls += 1
-        self._note(('script', script, None))
-        self.p.stdin.write(json.dumps({'script': script}) + "\n")
-        self.p.stdin.flush()
-        while True:
-            line = self.p.stdout.readline()
-            if not line:
-                raise Inconclusive('plain worker died on script')
-            line = line.strip()
-            if line.startswith('{"code"'):
-                d = json.loads(line)
-                return d['code'], d['out']
+        if self.fs is None:
+            self.fs = self._spawn(True)
+        d = self._ask(self.fs, {'script': script, 'prelude': prelude}, 'script')
+        return d.get('code', 3), d.get('out', '')
+
+    def eval_fresh(self, expr, setup=None, prelude=None):
+        """evaluate expr in a child forked from the pristine process (after the optional prelude script)"""
+        self.calls += 1
+        if self.fs is None:
+            self.fs = self._spawn(True)
+        return self._ask(self.fs, {'expr': expr, 'setup': setup, 'script': None, 'prelude': prelude}, repr(expr))
 
     def close(self):
-        try:
-            self.p.stdin.close()
-            self.p.wait(timeout=5)
-        except Exception:
-            self.p.kill()
+        for proc in (self.p, self.fs):
+            if proc is None:
+                continue
+            try:
+                proc.stdin.close()
+                proc.wait(timeout=5)
+            except Exception:
+                proc.kill()
 
 
 HISTORY_PRELUDE = r'''
@@ -185,23 +231,24 @@ def history_prelude(history):
     return HISTORY_PRELUDE % repr([list(h) for h in history])
 
 
+_fresh = (None, None)
+
+
+def _fresh_worker():
+    """one fork server per process (never shared across fork())"""
+    global _fresh
+    if _fresh[0] != os.getpid():
+        _fresh = (os.getpid(), PlainWorker())
+    return _fresh[1]
+
+
 def fresh_eval(expr, setup, history=()):
-    """evaluate expr in a new plain process after replaying `history` (a list of PlainWorker log entries) in it"""
-    w = PlainWorker()
-    try:
-        if history:
-            w.run_script(history_prelude(history))
-        return w.eval(expr, setup)
-    finally:
-        w.close()
+    """evaluate expr in a process with the state of a fresh import, after replaying `history` (PlainWorker log entries) in it"""
+    return _fresh_worker().eval_fresh(expr, setup, history_prelude(history) if history else None)
 
 
 def fresh_script(script, history=()):
-    w = PlainWorker()
-    try:
-        return w.run_script((history_prelude(history) if history else '') + script)
-    finally:
-        w.close()
+    return _fresh_worker().run_script(script, history_prelude(history) if history else None)
 
 
 def minimal_history(log, reproduces, cap=3000):
